@@ -317,7 +317,19 @@ def build(u):
     s = u.method("src/replace_source.rs", "impl<T: Source + Hash + PartialEq + Eq + 'static> Source for ReplaceSource<T>", "source")
     rp = u.method("src/replace_source.rs", "impl<T: Source + Hash + PartialEq + Eq + 'static> Source for ReplaceSource<T>", "rope")
     sz = u.method("src/replace_source.rs", "impl<T: Source + Hash + PartialEq + Eq + 'static> Source for ReplaceSource<T>", "size")
+    bf = u.method("src/replace_source.rs", "impl<T: Source + Hash + PartialEq + Eq + 'static> Source for ReplaceSource<T>", "buffer")
     u.raw("}", ("glue", NAME))
+    # buffer() holds exactly the bytes of source() (C07), i.e. the same splice
+    bf.sig("buffer", [
+        ("buffer.requires", "contract", "requires self.dom_ok()"),
+        ("buffer.ensures", "contract",
+         "ensures exists|idx: Seq<int>| #![trigger stable_sorted_idx(self.replacements@, idx)] stable_sorted_idx(self.replacements@, idx)\n"
+         "    && cow_bytes(&res) == splice(self.inner.text(), rviews(picks(self.replacements@, idx)), 0)", F),
+    ], ret="res")
+    bf.rule("L2", r"match self\.source\(\) \{", "let src_cow = self.source();\n    match src_cow {", fn="buffer")
+    bf.at("buffer", "after", r"let src_cow = self\.source\(\);", "buffer.hint.deref", "hint", "proof { axiom_cow_str_deref(&src_cow); }", regex=True, nth=1, tags=F)
+    bf.body_start("buffer", "canary.buffer", "canary", "proof { assert(false); }")
+    u.contracted += [("ReplaceSource::buffer", "src/replace_source.rs")]
     build_rope(u, rp)
     sz.sig("size", [
         ("size.requires", "contract", "requires self.dom_ok()"),
